@@ -117,7 +117,17 @@ func (h *histInfo) reportedAt(L *prodLog, off int) string {
 	if L.views[i].start {
 		what += "+opens-its-chain"
 	}
-	return fmt.Sprintf("%s:line-%d-of-%d:%s", h.labels[m.event], k, h.lines[m.event], what)
+	at := fmt.Sprintf("%s:line-%d-of-%d:%s", h.labels[m.event], k, h.lines[m.event], what)
+	if e.kind == "entry" || e.kind == "preamble" {
+		// an ordinary entry is rejected: name the restart in front of it and what that restart wrote
+		for x := m.event - 1; x >= 0; x-- {
+			if k := L.spec.events[x].kind; k == "reset" || k == "reboot" || k == "finalize" {
+				at += fmt.Sprintf(":after:%s:wrote-%d-lines", h.labels[x], h.lines[x])
+				break
+			}
+		}
+	}
+	return at
 }
 
 type directedHistory struct {
